@@ -592,6 +592,16 @@ def udpWriteMsg (j : UdpJob) (out : LibOut) (ulen : Nat) : UdpJob × Bool :=
     else udpWrite j b false
   | _ => (j, false)
 
+/-- the wire fast path on the same job: `LeaseWire` hands out `j.tx[:0]` (no
+state changes), the builder appends `body` into it, and either `CommitWire`
+→ `Write(body)` with the bytes already home, or `AbortWire` — which never
+reaches the transport: all it leaves is `junk` in the slab. -/
+def udpCommit (j : UdpJob) (body : Bytes) : UdpJob × Bool :=
+  if body.length > j.tx.length then udpWrite j body false   -- the lease was refused: a buffer of the writer's own
+  else udpWrite { j with tx := writeAt j.tx 0 body } body true
+
+def udpAbort (j : UdpJob) (junk : Bytes) : UdpJob := { j with tx := writeAt j.tx 0 junk }
+
 /-- a reply through `responseWriter.WriteMsg` onto a burst `udpJob`. -/
 def udpReply {β ν δ : Type} (lib : Lib β ν δ) (m : Msg ν) (heap : Heap β) (st : PState β δ)
     (directPack : Bool) (j : UdpJob) : UdpJob × Bool :=
